@@ -42,6 +42,7 @@ type env struct {
 	sigs    []func() string
 	sigName []string
 	sig0    []string
+	sigIn   []bool         // the signature belongs to an input-only argument (index slices)
 	hit     bool           // the thing named by c.Kind was applied
 	caps    map[string]int // capacity of the Sym/Tri operands by name
 }
@@ -89,6 +90,14 @@ func (e *env) alloc(name string, n int) *region {
 func (e *env) sig(name string, f func() string) {
 	e.sigs = append(e.sigs, f)
 	e.sigName = append(e.sigName, name)
+	e.sigIn = append(e.sigIn, false)
+}
+
+// sigInput registers the image of an input-only argument that is not a
+// float64 region (an index slice): no call may change it, valid or not.
+func (e *env) sigInput(name string, f func() string) {
+	e.sig(name, f)
+	e.sigIn[len(e.sigIn)-1] = true
 }
 
 // sigAt registers the image of m under Dims/At as a signature (for operands
@@ -147,6 +156,13 @@ func (e *env) onlyAllowed() (string, string) {
 			}
 			if !r.allowed[i] {
 				return "write-outside-receiver", fmt.Sprintf("receiver %s: element %d of %d of the backing array lies outside the receiver's window and changed from %v to %v", r.name, i, len(r.buf), r.snap[i], v)
+			}
+		}
+	}
+	for i, f := range e.sigs {
+		if i < len(e.sigIn) && e.sigIn[i] && i < len(e.sig0) {
+			if s := f(); s != e.sig0[i] {
+				return "input-modified", fmt.Sprintf("input argument %s changed from %s to %s", e.sigName[i], clip(e.sig0[i]), clip(s))
 			}
 		}
 	}
